@@ -696,6 +696,10 @@ class ExprMixin:
                     s1.assume(z3.Length(out.t) == z3.Length(srcv.t))
                     s1.assume(z3.ForAll([i.t], z3.Implies(z3.And(i.t >= 0, i.t < z3.Length(srcv.t)),
                                                           out.t[i.t] == z3.substitute(val.t, (q.t, srcv.t[i.t])))))
+                    # the same fact in membership form (sequence theory does not link indices and containment by itself)
+                    y = val.s.fresh("y")
+                    s1.assume(z3.ForAll([y.t], z3.Contains(out.t, z3.Unit(y.t)) ==
+                                        z3.Exists([q.t], z3.And(member(q.t), y.t == val.t))))
                 else:
                     y = val.s.fresh("y")
                     s1.assume(z3.ForAll([y.t], z3.Contains(out.t, z3.Unit(y.t)) ==
